@@ -111,7 +111,12 @@ def gen(rnd):
             'res_dist': rnd.choice([0, 1, 2, 3, 4]), 'eps': rnd.choice([9.414, 12.0]),
             'moltype': rnd.choice(['mol', 'molecule_0', 'Go_prot', 'P'] if rnd.random() < 0.15 else ['mol', 'molecule_0', 'Go_prot']),
             'bb': rnd.choice(['BB', 'BB', 'B1']), 'site': rnd.choice(['CA', 'VS']),
-            'premerged': rnd.random() < 0.3, 'key_gap': rnd.choice([1, 1, 3])}
+            'premerged': rnd.random() < 0.3, 'key_gap': rnd.choice([1, 1, 3]),
+            # residue numbers of the molecule: renumbered from 1 per chain, or the input numbering kept (what the pipeline does
+            # for a chain that is not renumbered by the merge: expression tags numbered -2, -1, 0 keep their sign)
+            # kept to one chain: Molecule.merge_molecule adds the receiver's last residue number to the numbers of the merged
+            # molecule, which only keeps them apart when those start at 1 or above (merge numbering is C12's subject)
+            'resid_old': nch == 1 and rnd.random() < 0.6}
 
 
 def build(case):
@@ -133,7 +138,8 @@ def build(case):
             for nm, pos in zip(r['beads'], r['pos']):
                 cg += 1
                 name = case['bb'] if nm == 'BB' else nm
-                mol.add_node(k, atomname=name, resname=r['resname'], resid=ri + 1, _old_resid=r['old'], chain=ch['chain'],
+                mol.add_node(k, atomname=name, resname=r['resname'],
+                             resid=r['old'] if case.get('resid_old') else ri + 1, _old_resid=r['old'], chain=ch['chain'],
                              charge_group=cg, atype='P2' if nm == 'BB' else 'C3', charge=0.0, mass=72.0,
                              position=np.array(pos, dtype=float), tag=(ci, ri, nm))
                 if nm == 'BB':
